@@ -331,10 +331,34 @@ Qed.
 (* ---------------------------------------------------------------- the sessions the PDR operations produce *)
 
 Lemma create_pdr_s e o c :
+  alookup (pdr_id o) (s_pdrs (c_s c)) = None ->
   c_s (create_pdr e o c) =
   set_pdrs (aset (pdr_id o) (dedup (po_urrs o)) (s_pdrs (c_s c)))
            (set_urrs (incr_refs (dedup (po_urrs o)) (s_urrs (c_s c))) (c_s c)).
-Proof. unfold create_pdr. rewrite drv_s. reflexivity. Qed.
+Proof. intros H. unfold create_pdr. rewrite H. unfold create_pdr_new. rewrite drv_s. reflexivity. Qed.
+
+Lemma decr_ref_dis_l u l : decr_ref u l = dis_l u l.
+Proof. unfold decr_ref, dis_l, with_ref. destruct (alookup u l); reflexivity. Qed.
+
+Lemma decr_refs_dis_all us : forall l, fold_left (fun l u => decr_ref u l) us l = dis_all us l.
+Proof. unfold dis_all. induction us as [|u us IH]; intros l; cbn [fold_left]; [reflexivity|]. rewrite decr_ref_dis_l. apply IH. Qed.
+
+(* the session a Create PDR for a HELD id leaves: the associations replaced (data plane accepted), or nothing changed *)
+Lemma create_pdr_held_s e o c old :
+  alookup (pdr_id o) (s_pdrs (c_s c)) = Some old ->
+  c_s (create_pdr e o c) =
+    set_pdrs (aset (pdr_id o) (dedup (po_urrs o)) (s_pdrs (c_s c)))
+      (set_urrs (dis_all (filter (fun u => negb (memN u (dedup (po_urrs o)))) old)
+                   (incr_refs (filter (fun u => negb (memN u old)) (dedup (po_urrs o))) (s_urrs (c_s c)))) (c_s c))
+  \/ c_s (create_pdr e o c) = c_s c.
+Proof.
+  intros H. unfold create_pdr. rewrite H. unfold create_pdr_held.
+  match goal with |- context [drv e ?cx DCreate KPDR (pdr_id o)] => pose proof (drv_s e cx DCreate KPDR (pdr_id o)) as Hs;
+    destruct (drv e cx DCreate KPDR (pdr_id o)) as [c3 ok] end. cbn [fst] in Hs.
+  destruct ok.
+  - left. rewrite Hs. cbn [upd_s c_s]. rewrite decr_refs_dis_all. reflexivity.
+  - right. cbn [upd_s c_s]. rewrite Hs. cbn [upd_s c_s]. destruct (c_s c); reflexivity.
+Qed.
 
 Lemma update_pdr_s e o c :
   c_s (fst (update_pdr e o c)) = c_s c \/
@@ -416,8 +440,20 @@ Qed.
 Lemma create_urr_rkeep e o c : rkeep c (create_urr e o c).
 Proof.
   unfold create_urr. destruct (uo_id o) as [i|]; [|apply rkeep_refl].
-  apply rkeep_same_pdrs; rewrite drv_s; cbn [upd_s c_s]; [reflexivity|].
-  intros HI. apply RefInv_create_urr; [exact HI | reflexivity].
+  match goal with |- context [drv e ?cx DCreate KURR i] => set (c1 := cx) end.
+  pose proof (drv_s e c1 DCreate KURR i) as Hs. destruct (drv e c1 DCreate KURR i) as [c2 ok]. cbn [fst] in Hs.
+  assert (R1 : RefInv (c_s c) -> RefInv (c_s c1)).
+  { intros HI. cbn [c1 upd_s c_s]. apply RefInv_create_urr; [exact HI | reflexivity]. }
+  destruct ok.
+  - apply rkeep_same_pdrs; rewrite Hs; [reflexivity | exact R1].
+  - destruct (held_urr (c_s c) i) as [u|] eqn:Hh.
+    + apply rkeep_same_pdrs; cbn [upd_s c_s]; rewrite Hs; [reflexivity|].
+      intros HI. apply RefInv_create_urr; [apply R1; exact HI|].
+      destruct (held_urr_spec _ _ _ Hh) as [Hl _].
+      change (pdr_refs (c_s c1) i) with (pdr_refs (c_s c) i).
+      destruct HI as [[_ [_ Hr]] [_ Hlen]]. rewrite (Hr _ _ Hl). symmetry. apply N.mod_small.
+      rewrite pdr_refs_cnt. pose proof (cnt_le (s_pdrs (c_s c)) i). lia.
+    + apply rkeep_same_pdrs; rewrite Hs; [reflexivity | exact R1].
 Qed.
 
 Lemma update_urr_rkeep e o c : rkeep c (fst (update_urr e o c)).
@@ -472,7 +508,24 @@ Definition pdr_fresh (o : pdr_op) (s : sess) : Prop :=
 
 Theorem create_pdr_RefInv e o c : RefInv (c_s c) -> pdr_fresh o (c_s c) -> RefInv (c_s (create_pdr e o c)).
 Proof.
-  intros HI [Hnew Hroom]. rewrite create_pdr_s. apply RefInv_create_pdr; [exact HI | apply dedup_NoDup | exact Hnew | exact Hroom].
+  intros HI [Hnew Hroom]. rewrite (create_pdr_s _ _ _ Hnew). apply RefInv_create_pdr; [exact HI | apply dedup_NoDup | exact Hnew | exact Hroom].
+Qed.
+
+(* ... and for an id the session still holds - no freshness needed any more (fix "Create PDR for a held id replaces its
+   associations"): the counts stay exact whether the data plane accepts or rejects the duplicate *)
+Theorem create_pdr_held_RefInv e o c old :
+  RefInv (c_s c) -> alookup (pdr_id o) (s_pdrs (c_s c)) = Some old -> RefInv (c_s (create_pdr e o c)).
+Proof.
+  intros HI Hold. destruct (create_pdr_held_s e o c old Hold) as [E|E]; rewrite E; [|exact HI].
+  apply RefInv_update_pdr; [exact HI | exact Hold | apply dedup_NoDup].
+Qed.
+
+Theorem create_pdr_RefInv_any e o c :
+  RefInv (c_s c) -> N.of_nat (length (s_pdrs (c_s c))) + 1 < 65536 -> RefInv (c_s (create_pdr e o c)).
+Proof.
+  intros HI Hroom. destruct (alookup (pdr_id o) (s_pdrs (c_s c))) as [old|] eqn:E.
+  - eapply create_pdr_held_RefInv; eauto.
+  - apply create_pdr_RefInv; [exact HI | split; assumption].
 Qed.
 
 (* static well-formedness of the Create PDR list of a request against the session it is applied to *)
@@ -490,10 +543,10 @@ Proof.
   rewrite fold_ctx_cons. cbn [map length] in *. inversion Hd as [|? ? Hna Hdl]; subst.
   assert (Ha : alookup (pdr_id a) (s_pdrs (c_s c)) = None) by (apply Hnew; left; reflexivity).
   apply IH; [exact Hdl| | |].
-  - intros x Hx. rewrite create_pdr_s. cbn [set_pdrs s_pdrs]. rewrite alookup_aset_other.
+  - intros x Hx. rewrite (create_pdr_s _ _ _ Ha). cbn [set_pdrs s_pdrs]. rewrite alookup_aset_other.
     + apply Hnew. right. exact Hx.
     + intros E. apply Hna. rewrite <- E. apply in_map. exact Hx.
-  - rewrite create_pdr_s. cbn [set_pdrs s_pdrs]. rewrite length_aset_new by exact Ha. lia.
+  - rewrite (create_pdr_s _ _ _ Ha). cbn [set_pdrs s_pdrs]. rewrite length_aset_new by exact Ha. lia.
   - apply create_pdr_RefInv; [exact HI|]. split; [exact Ha | lia].
 Qed.
 
@@ -540,6 +593,66 @@ Theorem run_categories_RefInv e o names c r :
   run_categories e o names c = Some r -> RefInv (c_s c) -> (occurs CPDR names <= 1)%nat -> cpdr_wf o (c_s c) ->
   RefInv (c_s (fst r)).
 Proof. intros H HI Ho Hw. eapply run_categories_RefInv_gen; eauto. Qed.
+
+(* ---- without any freshness hypothesis (the Create PDR ids of a request may name PDRs the session holds, and may repeat):
+   only room below 65536 PDRs is needed *)
+Definition cpdr_room (o : ops) (s : sess) : Prop := N.of_nat (length (s_pdrs s) + length (cPDR o)) < 65536.
+
+Lemma create_pdr_len e o c : (length (s_pdrs (c_s (create_pdr e o c))) <= S (length (s_pdrs (c_s c))))%nat.
+Proof.
+  destruct (alookup (pdr_id o) (s_pdrs (c_s c))) as [old|] eqn:E.
+  - destruct (create_pdr_held_s e o c old E) as [H|H]; rewrite H; [|lia].
+    cbn [set_pdrs s_pdrs]. rewrite (length_aset_old _ _ _ _ E). lia.
+  - rewrite (create_pdr_s _ _ _ E). cbn [set_pdrs s_pdrs]. rewrite length_aset_new by exact E. lia.
+Qed.
+
+Lemma fold_create_pdr_RefInv_room e l : forall c,
+  N.of_nat (length (s_pdrs (c_s c)) + length l) < 65536 ->
+  RefInv (c_s c) -> RefInv (c_s (fold_ctx (create_pdr e) l c)).
+Proof.
+  induction l as [|a l IH]; intros c Hroom HI; [exact HI|].
+  rewrite fold_ctx_cons. cbn [length] in Hroom. apply IH.
+  - pose proof (create_pdr_len e a c). lia.
+  - apply create_pdr_RefInv_any; [exact HI | lia].
+Qed.
+
+Lemma run_categories_RefInv_room_gen e o : forall names c r,
+  run_categories e o names c = Some r -> RefInv (c_s c) -> (occurs CPDR names <= 1)%nat ->
+  (occurs CPDR names = 1%nat -> cpdr_room o (c_s c)) -> RefInv (c_s (fst r)).
+Proof.
+  induction names as [|n names IH]; intros c r; cbn [run_categories].
+  - intros H HI _ _. inversion H. exact HI.
+  - destruct (run_category e o n c) as [[c1 r1]|] eqn:E1; [|discriminate].
+    destruct (run_categories e o names c1) as [[c2 r2]|] eqn:E2; [|discriminate].
+    intros H HI Hocc Hwf. inversion H; subst. cbn [fst]. cbn [occurs] in Hocc, Hwf.
+    destruct (String.eqb n CPDR) eqn:En.
+    + apply String.eqb_eq in En. subst n. unfold CPDR in E1. rewrite run_category_cpdr in E1. inversion E1; subst.
+      pose proof (Hwf ltac:(lia)) as W.
+      apply (IH _ _ E2); [apply fold_create_pdr_RefInv_room; assumption | lia | intros; lia].
+    + unfold CPDR in En. rewrite (run_category_without_cpdr _ _ _ _ En) in E1.
+      assert (K : rkeep c c1).
+      { refine (run_category_rel rkeep rkeep_refl rkeep_trans e (without_cpdr o) _ _ _ _ _ _ _ _ _ _ n c (c1, r1) E1); intros.
+        - apply create_simple_rkeep.
+        - apply update_simple_rkeep.
+        - apply remove_simple_rkeep.
+        - apply create_urr_rkeep.
+        - apply update_urr_rkeep.
+        - apply remove_urr_rkeep.
+        - apply query_urr_rkeep.
+        - match goal with Hx : In _ (cPDR (without_cpdr o)) |- _ => destruct Hx end.
+        - apply update_pdr_rkeep.
+        - apply remove_pdr_rkeep. }
+      destruct K as [K1 [K2 K3]]. cbn [fst] in *.
+      apply (IH _ _ E2); [auto | lia|].
+      intros Ho. pose proof (Hwf ltac:(lia)) as W. unfold cpdr_room in *. lia.
+Qed.
+
+(* C12 (a) for a whole request, at full strength: ANY category order in which the Create PDR loop runs at most once, ANY
+   Create PDR ids *)
+Theorem run_categories_RefInv_room e o names c r :
+  run_categories e o names c = Some r -> RefInv (c_s c) -> (occurs CPDR names <= 1)%nat -> cpdr_room o (c_s c) ->
+  RefInv (c_s (fst r)).
+Proof. intros H HI Ho Hw. eapply run_categories_RefInv_room_gen; eauto. Qed.
 
 Lemma mod_order_once : (occurs CPDR mod_order <= 1)%nat. Proof. vm_compute. apply le_n. Qed.
 Lemma est_order_once : (occurs CPDR est_order <= 1)%nat. Proof. vm_compute. apply le_n. Qed.
@@ -691,12 +804,15 @@ Definition dup_pdr_history : list event :=
    EvRecv 0 4 (MMod 1 IeAbsent (mkOps [] [] [] [] [] [] [] [] [] [Some 1] [] [] [] [] [] []))
      (mkEnv [] [(DQuery, 7, [mkRpt 7 1 0 [10; 10; 10; 1; 1; 1] 5 100 200])])].
 
-Example create_pdr_existing_id_refuted :
+(* the history of the former finding create-pdr-existing-id (fixed): the duplicate Create PDR 1 {7} is rejected by the
+   data plane and leaves the counts alone, so Remove PDR 1 finds URR 7's last reference and returns its final usage *)
+Example create_pdr_existing_id_exact :
   match run (init 0 1) dup_pdr_history with
   | Ok (w, os) =>
-      nth 3 os [] = [ODrv DRemove KPDR 1 1 true; OSend 0 (PModRsp 4 10 CauseAccepted []) false] /\
+      map (fun x => match x with ODrv a b c d ok => Some (a, b, c, d, ok) | _ => None end) (firstn 2 (nth 3 os []))
+        = [Some (DRemove, KPDR, 1, 1, true); Some (DQuery, KURR, 1, 7, true)] /\
       map (option_map (fun s => (s_pdrs s, map (fun x => (fst x, ui_ref (snd x))) (s_urrs s)))) (w_slots w)
-        = [Some ([], [(7, 1)])]
+        = [Some ([], [(7, 0)])]
   | Fault _ => False
   end.
 Proof. vm_compute. split; reflexivity. Qed.
